@@ -21,13 +21,24 @@ class L10nLinter:
 
     def lint_file(self, path, ref, extra_tests):
         file_parser = parser.getParser(path)
-        if ref is not None and os.path.isfile(ref):
-            file_parser.readFile(ref)
-            reference = file_parser.parse()
-        else:
-            reference = {}
-        file_parser.readFile(path)
-        current = file_parser.parse()
+        try:
+            if ref is not None and os.path.isfile(ref):
+                file_parser.readFile(ref)
+                reference = file_parser.parse()
+            else:
+                reference = {}
+            file_parser.readFile(path)
+            current = file_parser.parse()
+        except Exception as e:
+            # e.g. RecursionError in deeply nested Fluent, report like compare
+            yield {
+                "path": path,
+                "lineno": 1,
+                "column": 1,
+                "level": "error",
+                "message": str(e),
+            }
+            return
         checker = checks.getChecker(
             File(path, path, locale=REFERENCE_LOCALE), extra_tests=extra_tests
         )
